@@ -226,4 +226,16 @@ CLAIMED["C02"] = {
     "note": TRUST + " MPI's non-overtaking and progress guarantees are assumed, not checked.",
 }
 
+CLAIMED["C09"] = {
+    "technique": "taint-style source/sink analysis over the AST: sources of the seeding (who flows into the generator state), uses of wall-clock / measured values (each use classified as statistics, log, performance state, or other), who-may-read tables for timing-derived state, control dependence of the checkpoint decision",
+    "text": ("Equality of outcomes across configurations and repetitions is NOT decided (it compares runs). Decided on every run are the structural "
+             "reasons it can hold: the initial generator state is a function of the LP identifier passed in, the configured seed and a constant "
+             "key only (no rid, nid, thread-local, timer, address or call result), through a pure mixing function, and both callers pass the "
+             "global LP identifier for that LP's own context; the state is allocated by the rollbackable allocator; every use of a timer or "
+             "statistics reading (12+ sites) is a statistics update, a log, another timer call, or an update of / comparison with the designated "
+             "performance state, which is read only by checkpoint-interval and GVT-initiation code, and the timing-derived checkpoint decision "
+             "controls nothing but checkpoint_take; placement values never reach model callbacks; placement itself is the monotone routing of C14."),
+    "note": TRUST + " Checkpoint timing and GVT initiation are assumed not to influence committed results (that is C01/C05).",
+}
+
 NOT_APPLICABLE = {}
